@@ -70,3 +70,27 @@ fn f_subid_avail_not_enforced() {
     println!("F-SUBID-AVAIL validate_packet_outbound_internal -> {:?}", r.is_ok());
     if r.is_ok() { println!("FINDING-PRESENT F-SUBID-AVAIL"); } else { println!("FINDING-ABSENT F-SUBID-AVAIL"); }
 }
+
+/// F-QOS2-DOUBLE-RESUBMIT (C04/C01): a retransmitted (DUP=1) QoS2 publish gets its PUBREC on the second connection; the PUBREL is
+/// half-written when that connection closes: the operation is queued for retransmission twice (once as the half-written current
+/// operation, once from the in-flight table).
+#[test]
+fn f_qos2_double_resubmit() {
+    let mut c = cfg(); c.ack_timeout = None;
+    let mut h = H::new(c);
+    h.connect(false, None).unwrap();
+    let _tag = h.submit(Kind::Pub2);
+    h.service(4096).unwrap(); h.write_completion().unwrap();
+    h.close().unwrap();                                   // in flight -> resubmit queue, DUP=1
+    h.connect(true, None).unwrap();                       // session resumed
+    h.service(4096).unwrap(); h.write_completion().unwrap();   // retransmission fully written
+    let pid = match h.sent_this_connection.last().map(|p| &**p) { Some(MqttPacket::Publish(p)) => { assert!(p.duplicate); p.packet_id } _ => panic!("setup: no retransmission") };
+    h.deliver(MqttPacket::Pubrec(PubrecPacket { packet_id: pid, ..Default::default() }), 64).unwrap();
+    h.service(5).unwrap();                                // PUBREL only partly encoded
+    let half_written = h.ps.current_operation.is_some();
+    h.close().unwrap();
+    let q: Vec<u64> = h.ps.resubmit_operation_queue.iter().copied().collect();
+    println!("F-QOS2-DOUBLE-RESUBMIT half_written={} resubmit_queue={:?}", half_written, q);
+    let dup = q.len() == 2 && q[0] == q[1];
+    if dup { println!("FINDING-PRESENT F-QOS2-DOUBLE-RESUBMIT"); } else { println!("FINDING-ABSENT F-QOS2-DOUBLE-RESUBMIT"); }
+}
